@@ -20,6 +20,7 @@ import NdnGen.C08
 #print axioms Ndn.C08.parse_wf
 #print axioms Ndn.C08.reencode_parses_back
 #print axioms Ndn.C08.reencode_succeeds
+#print axioms Ndn.C08.reencode_fails_only
 #print axioms Ndn.Codec.parse_accept
 #print axioms Ndn.Codec.parse_size
 #print axioms Ndn.Codec.reencode_ok
